@@ -17,6 +17,7 @@ import (
 	"github.com/hydraide/hydraide/app/core/hydra/swamp/treasure/msgpackpatch"
 	"github.com/hydraide/hydraide/app/core/hydra/swamp/vigil"
 	"github.com/hydraide/hydraide/app/name"
+	"github.com/hydraide/hydraide/app/verifhook"
 )
 
 const (
@@ -1791,9 +1792,15 @@ func (s *swamp) IncrementInt64(key string, i int64, condition *IncrementInt64Con
 	if treasureObj == nil {
 		treasureObj = s.CreateTreasure(key)
 	}
+	if verifhook.Enabled {
+		verifhook.Point("inc.fetched", key)
+	}
 
 	guardID := treasureObj.StartTreasureGuard(true)
 	defer treasureObj.ReleaseTreasureGuard(guardID)
+	if verifhook.Enabled {
+		verifhook.Point("inc.acquired", key)
+	}
 
 	switch treasureObj.GetContentType() {
 	case treasure.ContentTypeVoid:
@@ -1845,12 +1852,21 @@ func (s *swamp) IncrementInt64(key string, i int64, condition *IncrementInt64Con
 		}
 	}
 
+	if verifhook.Enabled {
+		verifhook.Point("inc.read", key)
+	}
 	// increment or decrement the value
 	contentInt += i
 	// beállítjuk az új értéket
 	treasureObj.SetContentInt64(guardID, contentInt)
+	if verifhook.Enabled {
+		verifhook.Point("inc.written", key)
+	}
 	// elmentjük a treasure-t
 	treasureObj.Save(guardID)
+	if verifhook.Enabled {
+		verifhook.Point("inc.saved", key)
+	}
 
 	// visszaadjuk az új értéket és hogy incrementálva lett-e
 	return contentInt, true, s.createMetaForIncrementResponse(treasureObj), nil
@@ -2158,6 +2174,9 @@ func (s *swamp) SaveFunction(t treasure.Treasure, guardID guard.ID) treasure.Tre
 		if wi == 0 && inMem == 0 {
 			// treasure lock feloldása hogy a kírás azonnal történjen
 			t.ReleaseTreasureGuard(guardID)
+			if verifhook.Enabled {
+				verifhook.Point("save.released", t.GetKey())
+			}
 			// write the treasure to the chroniclerInterface
 			s.fileWriterHandler(false)
 		}
@@ -2219,6 +2238,9 @@ func (s *swamp) SaveFunction(t treasure.Treasure, guardID guard.ID) treasure.Tre
 		if wi == 0 && inMem == 0 {
 			// treasure lock feloldása hogy a kírás azonnal történjen
 			t.ReleaseTreasureGuard(guardID)
+			if verifhook.Enabled {
+				verifhook.Point("save.released", t.GetKey())
+			}
 			// write the treasure to the chroniclerInterface
 			s.fileWriterHandler(false)
 		}
